@@ -65,7 +65,11 @@ class Sim:
 
 def mk_container(rng, online, total, lsn):
     ul = rng.randrange(0, total + 1) if total > 0 else 0
-    return {"qmi": 1 if online else 0, "total": total, "ul": ul, "dl": total - ul, "ssu": rng.choice([0, 0, 3]), "lsn": lsn}
+    dl = total - ul
+    if rng.random() < 0.15:
+        # the three volumes are reported independently: a record holds what was reported, not what would add up
+        ul, dl = rng.choice([(40, 2), (0, 7), (total + 1, 0), (ul, dl + 3)])
+    return {"qmi": 1 if online else 0, "total": total, "ul": ul, "dl": dl, "ssu": rng.choice([0, 0, 3, 11, 22]), "lsn": lsn}
 
 
 def json_body(supi_s, req):
@@ -194,8 +198,8 @@ class History:
 def gen_history(rng, sim, hid, kind, nops):
     h = History(hid, kind)
     base = IMSI0 + hid * 10
-    nsub = 1 if kind in ("single", "compliant", "split", "huge", "burst") else 8 if kind == "lenwalk" else 2
-    rgs = [1] if kind in ("single", "split", "huge", "burst", "lenwalk") else rng.choice([[1], [1, 2]])
+    nsub = 1 if kind in ("single", "compliant", "split", "split2", "huge", "burst") else 8 if kind == "lenwalk" else 2
+    rgs = [1] if kind in ("single", "split", "split2", "huge", "burst", "lenwalk") else rng.choice([[1], [1, 2]])
     for s in range(nsub):
         supi = base + s
         h.supis.append(supi)
@@ -397,9 +401,10 @@ def gen_history(rng, sim, hid, kind, nops):
     for step in range(nops):
         live = [s for s in sessions if s["live"]]
         r = rng.random()
-        if kind in ("split", "huge"):
+        if kind in ("split", "split2", "huge"):
             s = live[0] if live else None
-            if s is None:
+            if s is None or (kind == "split2" and len(live) < 2):
+                # split2: the subscriber has a second, newer session; the older one is the one that grows
                 do_create(h.supis[0])
                 continue
             big = 4500 if kind == "huge" else rng.choice([300, 500, 700, 1200])
@@ -723,7 +728,7 @@ SPEC = {
     "C01": ("Charging/PropsC01.v", {2, 3, 4}, [("single", 14)] * 10 + [("multi", 16)] * 8 + [("createusage", 5)] * 2),
     "C06": ("Charging/PropsC06.v", {2, 3, 4}, [("single", 16)] * 8 + [("compliant", 16)] * 7 + [("multi", 14)] * 5),
     "C02": ("Charging/PropsC02.v", {5, 6, 8}, [("multi", 18)] * 10 + [("pdu", 12)] * 2 + [("single", 10)] * 4 + [("split", 6)] * 2),
-    "C03": ("Charging/PropsC03.v", {5, 8}, [("multi", 14)] * 8 + [("split", 10)] * 4 + [("huge", 2)] + [("lenwalk", 1)]),
+    "C03": ("Charging/PropsC03.v", {5, 8}, [("multi", 14)] * 8 + [("split", 10)] * 3 + [("split2", 11)] + [("huge", 2)] + [("lenwalk", 1)]),
     "C10": ("Charging/PropsC10.v", {1, 6, 9}, [("wrap32", 16)] + [("multi", 18)] * 10 + [("names", 14)] * 4 + [("burst", 4)] * 4 + [("wrap63", 8)]),
     "C12": ("Charging/PropsC12.v", {1, 3, 4, 5, 6, 7}, [("multi", 18)] * 14 + [("single", 12)] * 4),
     "C11": ("Charging/PropsC11.v", {1}, [("multi", 14)] * 8 + [("single", 10)] * 4 + [("split", 10)] * 2),
